@@ -304,11 +304,13 @@ func Walk(root string, fn filepath.WalkFunc) error {
 }
 
 // RestampTree sets the modification time of every entry under root whose mtime
-// lies in the "real" era (year >= 2020) to now.  Inside a synctest bubble the
-// clock starts in 2000, while the kernel stamps files with real time; the harness
-// calls this at boundary points to keep file ages coherent with the bubble clock.
+// lies in the future of `now` (by more than an hour) to now.  Inside a synctest
+// bubble the clock is virtual (the harness starts it at 2021-01-01), while the
+// kernel stamps files with real time (2026+); the harness calls this at boundary
+// points to keep file ages coherent with the bubble clock.
 func RestampTree(root string, now time.Time) int {
 	n := 0
+	limit := now.Add(time.Hour)
 	_ = filepath.WalkDir(root, func(p string, de fs.DirEntry, err error) error {
 		if err != nil {
 			return nil
@@ -320,7 +322,7 @@ func RestampTree(root string, now time.Time) int {
 		if fi.Mode()&os.ModeSymlink != 0 {
 			return nil
 		}
-		if fi.ModTime().Year() >= 2020 {
+		if fi.ModTime().After(limit) {
 			if os.Chtimes(p, now, now) == nil {
 				n++
 			}
